@@ -34,6 +34,16 @@ def check_cp(kernel, g):
     cp = g.get_critical_path()
     total = float(sum(x.latency_cp for x in cp))
     n = 0
+    # the value must not depend on how often it is asked for (report + YAML output + graph
+    # export each evaluate it)
+    cp2 = g.get_critical_path()
+    total2 = float(sum(x.latency_cp for x in cp2))
+    n += 1
+    if abs(total2 - total) > 1e-9 or [x.line_number for x in cp2] != [x.line_number for x in cp]:
+        probs.append(("repeat", "critical path %.3f on the first evaluation, %.3f on the second"
+                      % (total, total2)))
+        cp = g.get_critical_path()
+        total = float(sum(x.latency_cp for x in cp))
     n += 1
     if total < le - 1e-9 or total > lf + 1e-9:
         probs.append(("value", "critical path %.3f outside [%.3f, %.3f] = longest chain (sum of "
